@@ -34,6 +34,15 @@ CLAIMS = {
                   "Coordinates are ints in the model; the implementation also receives them as equal floats.",
              tech="Coq proof: binary-search invariant, stable-sort specification, disjointness argument; differential correspondence",
              ref="DESIGN.md §4 C16"),
+ "C17": dict(text="Coq theorems for every key function and element list: the generator terminates (2^n pops, queue empty), yields "
+             "exactly the non-empty sub-lists of 0..n-1 once each (conservation invariant over the enumeration tree), each with its "
+             "elements and key; for keys monotone under appending the output is key-ordered; the interval scan returns exactly the "
+             "minimal in-range members of a sorted stream, hence min_combinations_in_interval_iter_sorted is exact for non-negative "
+             "scores. Tied to /repo by complete ordered output comparison on exhaustive small score vectors x intervals and random inputs "
+             "with repeated elements and zeros.",
+             note="heapq is modelled as an exact priority queue on Python's tuple order (key, len, comb, index).",
+             tech="Coq proof: conservation (Permutation) invariant + fuel measure, sortedness invariant, two-phase scan lemma; differential correspondence",
+             ref="DESIGN.md §4 C17"),
 }
 ALL = ["C%02d" % i for i in range(1, 21)]
 def chk(pid, c):
